@@ -379,6 +379,46 @@ class CFG:
                 work.append((y, frozenset(f2.items()), tag))
         return out
 
+    def paths_under(self, oracle, limit=200):
+        """Paths ENTRY -> EXIT/RAISE under an oracle for conditions: oracle(test) -> True / False / None (follow both).
+        `not` around a test is handled here.  Calls are assumed not to raise (only explicit `raise` leaves exceptionally).
+        Returns a list of (nodes, end) with end in ('exit', 'raise')."""
+        out = []
+
+        def decide(test):
+            neg = False
+            while isinstance(test, ast.UnaryOp) and isinstance(test.op, ast.Not):
+                neg = not neg
+                test = test.operand
+            v = oracle(test)
+            if v is None:
+                return None
+            return (not v) if neg else bool(v)
+
+        def walk(x, path, seen):
+            if len(out) >= limit:
+                return
+            if x == self.exit:
+                out.append((path, 'exit'))
+                return
+            if x == self.raise_exit:
+                out.append((path, 'raise'))
+                return
+            s = self.stmt[x]
+            test = s[1] if (isinstance(s, tuple) and s[0] == "COND") else (
+                s.test if isinstance(s, (ast.If, ast.While)) and not (self.split and self._is_compound_test(s.test)) else None)
+            v = decide(test) if test is not None else None
+            for (y, lab) in sorted(self.succ[x], key=lambda e: (e[0], str(e[1]))):
+                if lab == 'exc' and _is_code(s) and not isinstance(s, ast.Raise):
+                    continue
+                if test is not None and v is not None and lab in ('T', 'F') and (lab == 'T') != v:
+                    continue
+                if (x, y) in seen:
+                    continue
+                walk(y, path + [y], seen | {(x, y)})
+        walk(self.entry, [self.entry], frozenset())
+        return out
+
     # -- polarity-independent guards -------------------------------------------
     def cond_edges(self, atom, value):
         """edges (x, y, lab) out of If/While heads on which the atomic condition recognised by `atom` is known to
